@@ -327,7 +327,7 @@ def run(tier: str, seed: int) -> int:
     if tier == "quick":
         plans = [(2, 3, "all", True), (2, 2, "all", False), (2, 3, "mask", True), (2, 4, "dict", True)]
     else:
-        plans = [(2, 3, "all", False), (3, 3, "all", True), (3, 3, "mask", False), (2, 4, "mask", False),
+        plans = [(2, 3, "all", False), (3, 3, "all", True), (3, 3, "mask", True), (2, 4, "mask", True),
                  (2, 5, "dict", True), (3, 4, "dict", True)]
     for n, h, group, simple in plans:
         res = run_tlc("DataSet", cfg_text(n, h, True, group, simple), dump=True, timeout=3600)
